@@ -87,6 +87,7 @@ struct State {
     std::vector<Frame> stack;
     std::map<uint64_t, ObjP> mem;  // base -> obj
     uint64_t nextAddr = 0x10000000;
+    std::map<uint64_t, std::vector<uint64_t>> stackFree;   // addresses of dead stack objects, by size
     std::vector<z3::expr> pc;
     std::vector<std::pair<std::string, z3::expr>> inputs;
     std::vector<bool> inputKey;
@@ -251,9 +252,29 @@ public:
     }
 
     // ---- memory
+    // Stack objects die with their frame; their addresses are handed out again (last freed first, per size), as a real stack does: the same call made
+    // twice gets the same addresses, so code that keeps a stale stack address across calls (and compares it) behaves as in the native build.
+    void releaseAllocas(State& s, Frame& f)
+    {
+        for (auto it = f.allocas.rbegin(); it != f.allocas.rend(); ++it) {
+            auto m = s.mem.find(*it);
+            if (m == s.mem.end()) continue;
+            s.stackFree[m->second->size].push_back(*it);
+            s.mem.erase(m);
+        }
+    }
     ObjP alloc(State& s, uint64_t size, const std::string& name, bool heap = false, bool stack = false)
     {
         auto o = std::make_shared<MemObj>();
+        if (stack) {
+            auto fr = s.stackFree.find(size);
+            if (fr != s.stackFree.end() && !fr->second.empty()) {
+                o->base = fr->second.back(); fr->second.pop_back();
+                o->size = size; o->bytes.assign(size, 0); o->name = name; o->heap = heap; o->stack = stack;
+                s.mem[o->base] = o;
+                return o;
+            }
+        }
         o->base = s.nextAddr;
         o->size = size;
         o->bytes.assign(size, 0);
@@ -985,7 +1006,7 @@ public:
             if (first) { auto it = f.it; --it; site = &*it; first = false; }
             else {
                 CallBase* cs = f.callsite;
-                for (auto a : f.allocas) s.mem.erase(a);
+                releaseAllocas(s, f);
                 s.stack.pop_back();
                 if (s.stack.empty()) break;
                 site = cs;
@@ -1184,7 +1205,7 @@ public:
             case Instruction::Ret: {
                 Val rv;
                 if (I.getNumOperands()) rv = op(s, I.getOperand(0));
-                for (auto a : f.allocas) s.mem.erase(a);
+                releaseAllocas(s, f);
                 CallBase* cs = f.callsite;
                 s.stack.pop_back();
                 if (s.stack.empty()) return "returned";
@@ -1539,7 +1560,7 @@ public:
             }
             case Instruction::LandingPad: throw EngineError("landingpad reached by fallthrough");
             case Instruction::Resume: {
-                for (auto a : f.allocas) s.mem.erase(a);
+                releaseAllocas(s, f);
                 CallBase* cs = f.callsite;
                 // continue unwinding in the caller, starting at its call site
                 s.stack.pop_back();
